@@ -27,13 +27,14 @@ theorem execIL_call_hex {ms : MacroSem} {subs : SubEnv} {f : Nat} {σ σb : MSta
   rw [execIL]
   simp only [hargs, bind, Except.bind, hex_startsWith, ↓reduceIte, hex_drop, hsub, hbody]
 
-/-- a successful call of `hex_<name>` ran the compiled body of `name` — or, if no body is supplied, `name` is the
-    specification-level routine `set_usr_field` (`ILSem.lean`) -/
+/-- a successful call of `hex_<name>` ran the compiled body of `name` — or, if no body is supplied, `name` is one of the
+    specification-level routines `set_usr_field`, `get_usr_field` (`ILSem.lean`) -/
 theorem execIL_call_hex_inv {ms : MacroSem} {subs : SubEnv} {f : Nat} {σ σ' : MState} {name : String}
     {args : List ILPure} (h : execIL ms subs (f+1) (.call ("hex_" ++ name) args) σ = .ok σ') :
     (∃ vs ps body σb, evalPures ms σ [] args = .ok vs ∧ lookupS name subs = some (ps, body) ∧
       execIL ms subs f body { σ with params := ps.zip vs } = .ok σb ∧ σ' = { σb with params := σ.params }) ∨
-    (lookupS name subs = none ∧ ∃ vs, evalPures ms σ [] args = .ok vs ∧ setUsrFieldIL σ args vs = .ok σ') := by
+    (lookupS name subs = none ∧ ∃ vs, evalPures ms σ [] args = .ok vs ∧
+      (setUsrFieldIL σ args vs = .ok σ' ∨ (name = "get_usr_field" ∧ getUsrFieldIL σ args = .ok σ'))) := by
   rw [execIL] at h
   obtain ⟨vs, hvs, h⟩ := bind_ok h
   rw [if_pos (hex_startsWith name), hex_drop] at h
@@ -42,8 +43,17 @@ theorem execIL_call_hex_inv {ms : MacroSem} {subs : SubEnv} {f : Nat} {σ σ' : 
     rw [hl] at h
     simp only at h
     split at h
-    · exact Or.inr ⟨rfl, vs, hvs, h⟩
-    · simp at h
+    · exact Or.inr ⟨rfl, vs, hvs, Or.inl h⟩
+    · split at h
+      · next hg =>
+        have hn : name = "get_usr_field" := by
+          have := eq_of_beq hg
+          have h2 : ("hex_" ++ name).drop 4 = ("hex_get_usr_field" : String).drop 4 := by rw [this]
+          have h3 := congrArg String.Slice.toString h2
+          rw [hex_drop] at h3
+          exact h3.trans (by decide)
+        exact Or.inr ⟨rfl, vs, hvs, Or.inr ⟨hn, h⟩⟩
+      · simp at h
   | some pb =>
     obtain ⟨ps, body⟩ := pb
     rw [hl] at h
@@ -80,7 +90,7 @@ theorem call_preserves_disjoint_locals' {ms : MacroSem} {subs : SubEnv} {f : Nat
     (h : execIL ms subs (f+1) (.call ("hex_" ++ name) args) σ = .ok σ')
     (hd : calleeDisjoint subs f name L = true) :
     ∀ n ∈ L, lookupS n σ'.locals = lookupS n σ.locals := by
-  rcases execIL_call_hex_inv h with ⟨vs, ps, body, σb, _, hsub, _, _⟩ | ⟨hnone, vs, _, hset⟩
+  rcases execIL_call_hex_inv h with ⟨vs, ps, body, σb, _, hsub, _, _⟩ | ⟨hnone, vs, _, hset | ⟨hname, hget⟩⟩
   · refine (call_preserves_disjoint_locals h hsub ?_).1
     intro n hn
     simp only [calleeDisjoint, hsub, List.all_eq_true, Bool.not_eq_eq_eq_not, Bool.not_true] at hd
@@ -90,6 +100,17 @@ theorem call_preserves_disjoint_locals' {ms : MacroSem} {subs : SubEnv} {f : Nat
     intro n _
     exact (setUsrFieldIL_frame hset).locals n (by
       unfold usrWrites; split <;> simp)
+  · -- `get_usr_field` without a compiled body sets `ret_val` only, which the side condition excludes from `L`
+    intro n hn
+    refine (getUsrFieldIL_frame hget).locals n ?_
+    subst hname
+    simp only [calleeDisjoint, hnone, beq_self_eq_true, Bool.true_and] at hd
+    intro hm
+    simp only [List.mem_singleton, Res.loc.injEq] at hm
+    subst hm
+    simp only [Bool.not_eq_eq_eq_not, Bool.not_true] at hd
+    have : L.contains "ret_val" = true := List.contains_iff_mem.mpr hn
+    rw [hd] at this; exact Bool.noConfusion this
 
 /-- registers and memory: a call changes them only through the body's own `WRITE_REG`/`STOREW` -/
 theorem call_preserves_regs_mem {ms : MacroSem} {subs : SubEnv} {f : Nat} {σ σ' : MState} {name : String}
